@@ -11,6 +11,14 @@ import (
 // gocall.go: calls — builtins, conversions, calls by contract, inlined literals, library models.
 
 func (x *fnv) evalCall(s *State, call *ast.CallExpr) []Value {
+	res := x.evalCall0(s, call)
+	if x.fc != nil && len(x.fc.Ats) > 0 {
+		x.runAts(s, types.ExprString(call.Fun), call, true, res)
+	}
+	return res
+}
+
+func (x *fnv) evalCall0(s *State, call *ast.CallExpr) []Value {
 	c := x.c
 	// conversion T(x)
 	if tv, ok := x.info.Types[call.Fun]; ok && tv.IsType() {
@@ -72,7 +80,7 @@ func (x *fnv) evalCall(s *State, call *ast.CallExpr) []Value {
 	}
 	args := x.evalArgs(s, call, sig)
 	name := types.ExprString(call.Fun)
-	x.runAts(s, name, call)
+	x.runAts(s, name, call, false, nil)
 
 	if tgt != nil && tgt.obj != nil {
 		if res, ok := x.modelCall(s, tgt.obj, recv, args, call); ok {
